@@ -22,293 +22,374 @@ func init() {
 }
 
 func checkC17(c *Ctx) {
-	c.Rule("R17.1", "Write consumes everything (len(original), nil) and iterates writeLine to the empty suffix; writeLine returns nil or the strict suffix after the first newline", 4)
-	c.Rule("R17.2", "nothing is buffered or logged while the level is disabled", 2)
-	c.Rule("R17.3", "empty-line policy: flush(true) only from writeLine, flush(false) only from Sync, Close = Sync; flush logs iff allowed/non-empty and always resets", 4)
-	c.Rule("R17.4", "fast path only when nothing is buffered; otherwise append before flush", 2)
-	c.Rule("R17.5", "kept bytes are copies: no store of the caller's slice into the writer", 2)
+	c.Rule("R17.1", "Write: by path exploration over up to three newline-delimited pieces of a chunk - every piece is handled by the line protocol, the next piece is exactly the rest after the newline, and (len(original), nil) is returned", 2)
+	c.Rule("R17.2", "nothing is buffered or logged while the level is disabled (the gate is asked afresh on every Write)", 1)
+	c.Rule("R17.3", "empty-line policy: a line completed by a newline is always logged (even if empty); Sync/Close log the pending partial line only when it is non-empty, and reset the buffer", 2)
+	c.Rule("R17.4", "fast path only when nothing is buffered; otherwise the fragment is appended before the buffered line is logged, and the buffer is reset afterwards", 1)
+	c.Rule("R17.5", "kept bytes are copies: the writer never stores the caller's slice", 1)
 
 	wr := c.Method(ZapioPath, "Writer", "Write")
-	wl := c.Method(ZapioPath, "Writer", "writeLine")
-	fl := c.Method(ZapioPath, "Writer", "flush")
 	sy := c.Method(ZapioPath, "Writer", "Sync")
 	cl := c.Method(ZapioPath, "Writer", "Close")
-	lg := c.Method(ZapioPath, "Writer", "log")
-	if !c.Anchor("R17.1", "zapio.Writer.Write/writeLine/flush/Sync/Close/log", wr != nil && wl != nil && fl != nil && sy != nil && cl != nil && lg != nil) {
+	wn := c.Named(ZapioPath, "Writer")
+	if !c.Anchor("R17.1", "zapio.Writer.Write/Sync/Close", wr != nil && sy != nil && cl != nil && wn != nil) {
 		return
 	}
-	// ---------------- R17.1 ----------------
-	p := writeParam(wr)
-	for k, r := range Returns(wr) {
-		rv := RetVals(r)
-		c.Check(IsNilConst(Strip(rv[1])) && isLenOf(rv[0], p), "R17.1", wr.String(), "consumes-all#"+itoa(k+1), r.Pos(), "returns (len(%s), nil) with %s the original parameter (%s, %s)", p.Name(), p.Name(), Desc(rv[0]), Desc(rv[1]))
-	}
-	var wlCall *ssa.Call
-	for _, call := range Calls(wr) {
-		if StaticCallee(call) == wl {
-			wlCall, _ = call.(*ssa.Call)
-		}
-	}
-	okLoop := false
-	if wlCall != nil {
-		if ph, ok := Args(wlCall)[1].(*ssa.Phi); ok {
-			hasP, hasR := false, false
-			for _, e := range ph.Edges {
-				hasP = hasP || e == ssa.Value(p)
-				hasR = hasR || e == ssa.Value(wlCall)
-			}
-			h := LoopHeader(wlCall.Block())
-			cond := ""
-			if h != nil {
-				if iff, ok := h.Instrs[len(h.Instrs)-1].(*ssa.If); ok {
-					cond = Desc(iff.Cond)
-				}
-			}
-			okLoop = hasP && hasR && cond == "(len("+Desc(ph)+") > 0)"
-		}
-	}
-	c.Check(okLoop, "R17.1", wr.String(), "iterates-to-empty", wr.Pos(), "the loop passes what writeLine returned back into writeLine while it is non-empty, starting from the parameter")
-	line := wl.Params[1]
-	w := wl.Params[0].Name()
-	sm := c17Split(c, wl)
-	if sm == nil {
-		c.Und("R17.1", wl.String(), "split", wl.Pos(), "cannot find how writeLine locates the first newline (bytes.IndexByte / bytes.Cut on the parameter)")
-		return
-	}
-	for k, r := range Returns(wl) {
-		v := RetVals(r)[0]
-		atoms := AtomStrings(Guards(r))
-		if IsNilConst(Strip(v)) {
-			// whole fragment buffered first
-			ok := containsS(atoms, sm.notFound)
-			buffered := false
-			for _, call := range Calls(wl) {
-				if IsCallTo(call, "(*bytes.Buffer).Write") && Dominates(call, r) && containsS(AtomStrings(Guards(call)), sm.notFound) {
-					buffered = Desc(Args(call)[0]) == w+".buff" && Args(call)[1] == ssa.Value(line)
-				}
-			}
-			c.Check(ok && buffered, "R17.1", wl.String(), "no-newline-buffers-all#"+itoa(k+1), r.Pos(), "without a newline the whole fragment is buffered and nothing remains")
-		} else {
-			ok := sm.isTail(v) && containsS(atoms, sm.found)
-			c.Check(ok, "R17.1", wl.String(), "returns-strict-suffix#"+itoa(k+1), r.Pos(), "with a newline found the remainder is what follows it, strictly shorter (so the loop terminates) (%s; split by %s)", Desc(v), sm.how)
-		}
-	}
-	// ---------------- R17.2 ----------------
-	en := "Enabled(Core(" + wr.Params[0].Name() + ".Log), " + wr.Params[0].Name() + ".Level)"
-	nG := 0
-	for _, call := range Calls(wr) {
-		f := CalleeFunc(call)
-		if f == nil {
-			continue
-		}
-		switch {
-		case StaticCallee(call) == wl, StaticCallee(call) == lg, StaticCallee(call) == fl, IsCallTo(call, "(*bytes.Buffer).Write"):
-			nG++
-			c.Check(containsS(AtomStrings(Guards(call)), en), "R17.2", wr.String(), "gated/"+f.Name(), call.Pos(), "%s runs only when the level is enabled (guards %v); otherwise fragments written while disabled resurface later or Panic/Fatal writers terminate", f.Name(), AtomStrings(Guards(call)))
-		}
-	}
-	if nG == 0 {
-		c.Bad("R17.2", wr.String(), "gated", wr.Pos(), "no buffering/logging call found in Write")
-	}
-	okEarly := false
-	for _, r := range Returns(wr) {
-		if containsS(AtomStrings(Guards(r)), "!"+en) {
-			okEarly = true
-		}
-	}
-	c.Check(okEarly, "R17.2", wr.String(), "disabled-returns-early", wr.Pos(), "a disabled level returns before touching the buffer")
-
-	// ---------------- R17.3 ----------------
-	for _, caller := range c.CallersOf("(*go.uber.org/zap/zapio.Writer).flush") {
-		arg := Desc(Args(caller)[1])
-		pf := caller.Parent()
-		switch pf {
-		case wl:
-			c.Check(arg == "true", "R17.3", pf.String(), "flush-allow-empty", caller.Pos(), "a newline-terminated line is flushed with allowEmpty=true (empty interior lines are logged)")
-		case sy:
-			c.Check(arg == "false", "R17.3", pf.String(), "flush-no-empty", caller.Pos(), "Sync/Close flush with allowEmpty=false (no empty message for a trailing newline)")
-		default:
-			c.Bad("R17.3", pf.String(), "flush-caller", caller.Pos(), "unexpected caller of flush")
-		}
-	}
-	for _, r := range Returns(cl) {
-		c.Check(Desc(RetVals(r)[0]) == "Sync(w)", "R17.3", cl.String(), "close-is-sync", r.Pos(), "Close delegates to Sync")
-	}
-	var logCall ssa.Instruction
-	fw := fl.Params[0].Name()
-	allow := fl.Params[1].Name()
-	isReset := func(i ssa.Instruction) bool {
-		call, ok := i.(ssa.CallInstruction)
-		return ok && IsCallTo(call, "(*bytes.Buffer).Reset") && Desc(Args(call)[0]) == fw+".buff"
-	}
-	nReset := 0
-	for _, call := range Calls(fl) {
-		if StaticCallee(call) == lg {
-			logCall = call
-		}
-		if isReset(call) {
-			nReset++
-		}
-	}
-	if logCall == nil || nReset == 0 {
-		c.Bad("R17.3", fl.String(), "shape", fl.Pos(), "flush must log and reset")
-	} else {
-		nonEmpty := func(s string) bool { return s == "Len("+fw+".buff) > 0" || s == "len(Bytes("+fw+".buff)) > 0" }
-		empty := func(s string) bool { return s == "Len("+fw+".buff) == 0" || s == "len(Bytes("+fw+".buff)) == 0" }
-		ok, cex := AllDisjunctsHave(PathConds(logCall.Block()), func(s string) bool { return s == allow || nonEmpty(s) })
-		// and it is not skipped when the condition holds: every edge that leaves the
-		// part of the function from which the log is still reachable carries both negations
-		lb := logCall.Block()
-		canReach := func(b *ssa.BasicBlock) bool {
-			return b == lb || ExistsPath(fl, AtBlock(b), func(i ssa.Instruction) bool { return i == logCall }, nil)
-		}
-		skipOK := true
-		var skipCex []string
-		for _, pr := range fl.Blocks {
-			if pr == lb || lb.Dominates(pr) || !canReach(pr) {
-				continue
-			}
-			for si, sc := range pr.Succs {
-				if canReach(sc) || lb.Dominates(sc) && sc != pr {
+	explore := func(fn *ssa.Function) ([]string, bool, int) {
+		rn := fn.Params[0].Name()
+		resolve := func(st *ConcState, v ssa.Value) ssa.Value {
+			for k := 0; k < 16; k++ {
+				switch x := v.(type) {
+				case *ssa.ChangeType:
+					v = x.X
+					continue
+				case *ssa.MakeInterface:
+					v = x.X
 					continue
 				}
-				var edge []string
-				if iff, isIf := pr.Instrs[len(pr.Instrs)-1].(*ssa.If); isIf {
-					edge = append(edge, AtomString(Atom{iff.Cond, si == 0}))
+				nx := st.Step(v)
+				if nx == nil {
+					break
 				}
-				for _, conj := range PathConds(pr) {
-					all := append(append([]string{}, conj...), edge...)
-					hasE := false
-					for _, a := range all {
-						hasE = hasE || empty(a)
+				v = nx
+			}
+			return v
+		}
+		isBuf := func(st *ConcState, v ssa.Value) bool {
+			d := st.Desc(v)
+			return d == rn+".buff" || d == "&"+rn+".buff" || strings.HasSuffix(d, rn+".buff")
+		}
+		// canon renders a value as it stood when it was bound on this path (ConcState.Desc keeps such snapshots); the
+		// writer's buffer contents are rendered "buf"
+		canon := func(st *ConcState, v ssa.Value, d int) string {
+			if v == nil {
+				return ""
+			}
+			r := resolve(st, v)
+			switch x := r.(type) {
+			case *ssa.Call:
+				a := Args(x)
+				if IsCallTo(x, "(*bytes.Buffer).Bytes") && isBuf(st, a[0]) {
+					return "buf"
+				}
+			case *ssa.UnOp:
+				if x.Op == token.MUL && isBuf(st, x.X) {
+					return "buf"
+				}
+			case *ssa.Const:
+				if x.Value == nil {
+					return "nil"
+				}
+			}
+			s := st.Desc(v)
+			for strings.HasPrefix(s, "conv[string](") && strings.HasSuffix(s, ")") {
+				s = strings.TrimSuffix(strings.TrimPrefix(s, "conv[string]("), ")")
+			}
+			for _, b := range []string{"Bytes(" + rn + ".buff)", "Bytes(&" + rn + ".buff)", "String(" + rn + ".buff)", "String(&" + rn + ".buff)", rn + ".buff"} {
+				if s == b {
+					return "buf"
+				}
+			}
+			return s
+		}
+		cut := 0
+		seqs, trunc := ConcPaths(fn, ConcCfg{
+			MaxIter: 3, Cut: &cut, MaxStates: 400000,
+			Event: func(in ssa.Instruction, st *ConcState) string {
+				switch x := in.(type) {
+				case *ssa.Call:
+					a := Args(x)
+					switch {
+					case IsCallTo(x, "(*go.uber.org/zap.Logger).Check", "(*go.uber.org/zap.Logger).Log") && len(a) >= 3:
+						if st.Desc(a[1]) != rn+".Level" {
+							return "log-at(" + st.Desc(a[1]) + ")"
+						}
+						return "log(" + canon(st, a[2], 0) + ")"
+					case IsCallTo(x, "(*bytes.Buffer).Write", "(*bytes.Buffer).WriteString") && isBuf(st, a[0]):
+						return "buf+=" + canon(st, a[1], 0)
+					case IsCallTo(x, "(*bytes.Buffer).Reset") && isBuf(st, a[0]):
+						return "buf-reset"
+					case IsCallTo(x, "(*bytes.Buffer).Truncate") && isBuf(st, a[0]):
+						if k, ok := st.Int(a[1]); ok && k == 0 {
+							return "buf-reset"
+						}
+						return "buf?Truncate"
+					case IsCallTo(x, "(*bytes.Buffer).WriteByte", "(*bytes.Buffer).Next", "(*bytes.Buffer).ReadFrom") && isBuf(st, a[0]):
+						return "buf?" + CalleeFunc(x).Name()
+					case IsCallTo(x, "(*go.uber.org/zap/zapio.Writer).Sync"):
+						return "sync"
 					}
-					if !(containsS(all, "!"+allow) && hasE) {
-						skipOK = false
-						skipCex = all
+				case *ssa.Store:
+					if fa, ok := x.Addr.(*ssa.FieldAddr); ok && fieldName(fa.X.Type(), fa.Field) == "buff" {
+						// a []byte buffer: append(copy) / truncate / anything else
+						v := resolve(st, x.Val)
+						if ap, ok := v.(*ssa.Call); ok && CallBuiltin(ap) == "append" && canon(st, ap.Call.Args[0], 0) == "buf" {
+							return "buf+=" + canon(st, ap.Call.Args[1], 0)
+						}
+						if sl, ok := v.(*ssa.Slice); ok && canon(st, sl.X, 0) == "buf" && sl.Low == nil && sl.High != nil {
+							if k, ok := st.Int(sl.High); ok && k == 0 {
+								return "buf-reset"
+							}
+						}
+						if n, known := st.IsNil(x.Val); known && n {
+							return "buf-reset"
+						}
+						return "buf=" + canon(st, x.Val, 0)
+					}
+				case *ssa.Return:
+					var parts []string
+					for _, r := range x.Results {
+						if n, known := st.IsNil(r); known && n {
+							parts = append(parts, "nil")
+						} else {
+							parts = append(parts, canon(st, r, 0))
+						}
+					}
+					return "ret(" + strings.Join(parts, ",") + ")"
+				}
+				return ""
+			},
+			Branch: func(cond ssa.Value, taken bool, st *ConcState) string {
+				pol := taken
+				for k := 0; k < 8; k++ {
+					if u, ok := cond.(*ssa.UnOp); ok && u.Op == token.NOT {
+						cond, pol = u.X, !pol
+						continue
+					}
+					if nx := st.Step(cond); nx != nil {
+						cond = nx
+						continue
+					}
+					break
+				}
+				tf := func(n string, v bool) string {
+					if v {
+						return n + "=T"
+					}
+					return n + "=F"
+				}
+				if cl, ok := cond.(*ssa.Call); ok && isEnabledCall(cl) {
+					if st.Desc(Args(cl)[len(Args(cl))-1]) != rn+".Level" {
+						return "gate?(" + st.Desc(cl) + ")"
+					}
+					return tf("enabled", pol)
+				}
+				if ex, ok := cond.(*ssa.Extract); ok {
+					if cc, ok := ex.Tuple.(*ssa.Call); ok && IsCallTo(cc, "bytes.Cut") && ex.Index == 2 {
+						if sep, ok := c.constByteSlice(Args(cc)[1]); ok && string(sep) == "\n" {
+							return tf("nl("+canon(st, Args(cc)[0], 0)+")", pol)
+						}
 					}
 				}
-			}
-		}
-		c.Check(ok && skipOK, "R17.3", fl.String(), "logs-iff-allowed-or-nonempty", logCall.Pos(), "flush logs exactly when allowEmpty or the buffer is non-empty (counter-examples %v %v)", cex, skipCex)
-		c.Check(Desc(Args(logCall.(ssa.CallInstruction))[1]) == "Bytes("+fw+".buff)", "R17.3", fl.String(), "logs-buffer", logCall.Pos(), "what is logged is the buffered line")
-		resetThenLog := false
-		for _, call := range Calls(fl) {
-			if isReset(call) && ExistsPath(fl, call, func(i ssa.Instruction) bool { return i == logCall }, nil) {
-				resetThenLog = true
-			}
-		}
-		c.Check(mustPass(fl, isReset) && !ExistsPath(fl, logCall, IsReturn, isReset) && !resetThenLog, "R17.3", fl.String(), "always-resets-after", logCall.Pos(), "the buffer is reset on every path, after the logging")
-	}
-	// ---------------- R17.4 ----------------
-	var direct, app, flushCall ssa.Instruction
-	for _, call := range Calls(wl) {
-		switch {
-		case StaticCallee(call) == lg:
-			direct = call
-		case StaticCallee(call) == fl:
-			flushCall = call
-		case IsCallTo(call, "(*bytes.Buffer).Write") && containsS(AtomStrings(Guards(call)), sm.found):
-			app = call
-		}
-	}
-	if direct == nil || app == nil || flushCall == nil {
-		c.Bad("R17.4", wl.String(), "shape", wl.Pos(), "expected a direct log, an append and a flush in writeLine")
-	} else {
-		ok, cex := AllDisjunctsHave(PathConds(direct.Block()), func(s string) bool { return s == "Len("+w+".buff) == 0" })
-		c.Check(ok && sm.isHead(Args(direct.(ssa.CallInstruction))[1]), "R17.4", wl.String(), "fast-path-only-when-empty", direct.Pos(), "the line is logged directly only when nothing is buffered (counter-example %v), and it is the part before the newline", cex)
-		c.Check(Dominates(app, flushCall) && sm.isHead(Args(app.(ssa.CallInstruction))[1]) && Desc(Args(app.(ssa.CallInstruction))[0]) == w+".buff" && containsS(AtomStrings(Guards(flushCall)), "Len("+w+".buff) > 0"), "R17.4", wl.String(), "append-before-flush", app.Pos(), "with buffered text the fragment up to the newline is appended first, then the whole line is flushed")
-		// exactly one of the two on every newline path
-		_, t, _ := BranchOn(wl, sm.found)
-		okOne := t != nil && !ExistsPath(wl, AtBlock(t), IsReturn, func(i ssa.Instruction) bool { return i == direct || i == flushCall })
-		c.Check(okOne, "R17.4", wl.String(), "newline-always-emits", wl.Pos(), "every newline leads to exactly one emission (direct log or flush)")
-	}
-	// ---------------- R17.5 ----------------
-	var bad []string
-	for _, fn := range []*ssa.Function{wr, wl} {
-		prm := fn.Params[1]
-		AllInstrs(fn, func(i ssa.Instruction) {
-			st, ok := i.(*ssa.Store)
-			if !ok {
-				return
-			}
-			if Root(st.Val) == ssa.Value(prm) || sliceHas(st.Val, func(v ssa.Value) bool { return v == ssa.Value(prm) }) {
-				if Root(st.Addr) == ssa.Value(fn.Params[0]) {
-					bad = append(bad, fn.Name()+": "+Desc(st.Addr)+" = "+Desc(st.Val))
+				bo, ok := cond.(*ssa.BinOp)
+				if !ok {
+					return "cond?" + st.Desc(cond)
 				}
-			}
+				if lc, ok := resolve(st, bo.X).(*ssa.Call); ok && IsCallTo(lc, "(*go.uber.org/zap.Logger).Check") && IsNilConst(bo.Y) {
+					return "" // whether the logger accepted the message is the logger's business
+				}
+				x, y, op := canon(st, bo.X, 0), canon(st, bo.Y, 0), bo.Op
+				if strings.HasPrefix(y, "IndexByte(") || strings.HasPrefix(y, "len(") {
+					x, y, op = y, x, swapOp(op)
+				}
+				switch {
+				case strings.HasPrefix(x, "IndexByte(") && strings.HasSuffix(x, ", 10)"):
+					ch := strings.TrimSuffix(strings.TrimPrefix(x, "IndexByte("), ", 10)")
+					switch {
+					case y == "0" && op == token.LSS, y == "-1" && op == token.EQL, y == "-1" && op == token.LEQ:
+						return tf("nl("+ch+")", !pol)
+					case y == "0" && op == token.GEQ, y == "-1" && op == token.NEQ, y == "-1" && op == token.GTR:
+						return tf("nl("+ch+")", pol)
+					}
+				case (x == "len(buf)" || x == "len("+rn+".buff)" || x == "Len("+rn+".buff)" || x == "Len(&"+rn+".buff)") && y == "0":
+					switch op {
+					case token.EQL, token.LEQ:
+						return tf("buf-empty", pol)
+					case token.GTR, token.NEQ:
+						return tf("buf-empty", !pol)
+					}
+				case strings.HasPrefix(x, "len(") && y == "0":
+					ch := strings.TrimSuffix(strings.TrimPrefix(x, "len("), ")")
+					switch op {
+					case token.GTR, token.NEQ:
+						return tf("more("+ch+")", pol)
+					case token.EQL, token.LEQ:
+						return tf("more("+ch+")", !pol)
+					}
+				}
+				// bytes.Buffer.Len() == 0
+				if lc, ok := resolve(st, bo.X).(*ssa.Call); ok && IsCallTo(lc, "(*bytes.Buffer).Len") && isBuf(st, Args(lc)[0]) && y == "0" {
+					switch op {
+					case token.EQL, token.LEQ:
+						return tf("buf-empty", pol)
+					case token.GTR, token.NEQ:
+						return tf("buf-empty", !pol)
+					}
+				}
+				return "cond?" + st.Desc(cond)
+			},
 		})
+		return seqs, trunc, cut
 	}
-	c.Check(len(bad) == 0, "R17.5", ZapioPath+".Writer", "no-retained-caller-slice", wr.Pos(), "no store of the caller's slice (or a sub-slice) into the writer: callers such as io.Copy reuse their buffer (%v)", bad)
-	wt := c.Named(ZapioPath, "Writer")
-	okT := false
-	if wt != nil {
-		if st, ok := wt.Underlying().(interface{ NumFields() int }); ok {
-			_ = st
-		}
-		for _, a := range c.FieldAccesses(wt, map[string]bool{"buff": true}) {
-			_ = a
-		}
-		s := wt.Underlying().String()
-		okT = strings.Contains(s, "buff bytes.Buffer")
-	}
-	c.Check(okT, "R17.5", ZapioPath+".Writer", "buffer-copies", wr.Pos(), "the partial line is kept in a bytes.Buffer (Write copies)")
-	for _, call := range Calls(lg) {
-		if IsCallTo(call, "(*go.uber.org/zap.Logger).Check") {
-			d := Desc(Args(call)[2])
-			c.Check(d == "conv[string]("+lg.Params[1].Name()+")" && Desc(Args(call)[1]) == lg.Params[0].Name()+".Level", "R17.5", lg.String(), "message-is-copy", call.Pos(), "the message is string(b) at the writer's level (%s)", d)
-		}
-	}
-}
 
-// c17SplitModel: how writeLine splits its fragment at the first newline.
-type c17SplitModel struct {
-	found, notFound string // control atoms
-	isHead, isTail  func(ssa.Value) bool
-	how             string
-}
-
-func c17Split(c *Ctx, wl *ssa.Function) *c17SplitModel {
-	line := wl.Params[1]
-	for _, call := range Calls(wl) {
-		cl, ok := call.(*ssa.Call)
-		if !ok {
+	// ---------------- Write ----------------
+	p := writeParam(wr)
+	seqs, trunc, cut := explore(wr)
+	if trunc || len(seqs) == 0 || p == nil {
+		c.Und("R17.1", wr.String(), "paths", wr.Pos(), "path exploration of Write incomplete (%d sequences, truncated=%v)", len(seqs), trunc)
+		return
+	}
+	P := p.Name()
+	wantRet := "ret(len(" + P + "),nil)"
+	var badGate, badLine, badRet, badKeep []string
+	nLines := 0
+	for _, sq := range seqs {
+		toks := strings.Split(sq, " ; ")
+		i := 0
+		next := func() string {
+			if i < len(toks) {
+				i++
+				return toks[i-1]
+			}
+			return "<end>"
+		}
+		peek := func() string {
+			if i < len(toks) {
+				return toks[i]
+			}
+			return "<end>"
+		}
+		for _, t := range toks {
+			if strings.HasPrefix(t, "buf=") {
+				badKeep = append(badKeep, sq)
+			}
+		}
+		t := next()
+		if t == "enabled=F" {
+			if next() != wantRet || peek() != "<end>" {
+				badGate = append(badGate, sq)
+			}
 			continue
 		}
-		args := Args(cl)
-		switch {
-		case IsCallTo(cl, "bytes.IndexByte") && args[0] == ssa.Value(line):
-			if b, ok := constBytes(args[1]); !ok || len(b) != 1 || b[0] != '\n' {
-				continue
+		if t != "enabled=T" {
+			badGate = append(badGate, sq)
+			continue
+		}
+		C := P
+		ok := true
+		why := ""
+		for ok {
+			t = next()
+			if t == "more("+C+")=F" || (C == "nil" && strings.HasPrefix(t, "ret(")) {
+				if strings.HasPrefix(t, "ret(") {
+					i--
+				}
+				break
 			}
-			d := Desc(cl)
-			ln := line.Name()
-			return &c17SplitModel{
-				found: d + " >= 0", notFound: d + " < 0", how: d,
-				isHead: func(v ssa.Value) bool { return Desc(v) == ln+"[:"+d+"]" },
-				isTail: func(v ssa.Value) bool { return Desc(v) == ln+"[("+d+" + 1):]" },
+			if strings.HasPrefix(t, "ret(") && C != P {
+				// the loop condition was evident (nothing left)
+				i--
+				break
 			}
-		case IsCallTo(cl, "bytes.Cut") && args[0] == ssa.Value(line):
-			if b, ok := c.constByteSlice(args[1]); !ok || string(b) != "\n" {
-				continue
+			if t != "more("+C+")=T" {
+				ok, why = false, "expected the loop test on "+C+", found "+t
+				break
 			}
-			ext := func(v ssa.Value, idx int) bool {
-				e, ok := Strip(v).(*ssa.Extract)
-				return ok && e.Tuple == ssa.Value(cl) && e.Index == idx
-			}
-			d := Desc(cl)
-			return &c17SplitModel{
-				found: d + "#2", notFound: "!" + d + "#2", how: d,
-				isHead: func(v ssa.Value) bool { return ext(v, 0) },
-				isTail: func(v ssa.Value) bool { return ext(v, 1) },
+			t = next()
+			switch t {
+			case "nl(" + C + ")=F":
+				if n := next(); n != "buf+="+C {
+					ok, why = false, "a piece without newline must be appended whole to the buffer, found "+n
+				}
+				C = "nil"
+				// the loop ends: either its condition is evident or a break was taken
+				if strings.HasPrefix(peek(), "more(") {
+					if n := next(); !strings.HasSuffix(n, "=F") {
+						ok, why = false, "the loop continues after the unterminated rest was buffered: "+n
+					}
+				}
+				goto done
+			case "nl(" + C + ")=T":
+				nLines++
+				line, rest := C+"[:IndexByte("+C+", 10)]", C+"[(IndexByte("+C+", 10) + 1):]"
+				lineAlt, restAlt := "", ""
+				for _, tk := range toks {
+					// the same split taken from bytes.Cut(C, "\n")
+					if strings.HasPrefix(tk, "log(Cut("+C+", ") && strings.HasSuffix(tk, ")#0)") {
+						lineAlt = strings.TrimSuffix(strings.TrimPrefix(tk, "log("), ")")
+					}
+					if strings.HasPrefix(tk, "buf+=Cut("+C+", ") && strings.HasSuffix(tk, ")#0") {
+						lineAlt = strings.TrimPrefix(tk, "buf+=")
+					}
+				}
+				if lineAlt != "" {
+					line, restAlt = lineAlt, strings.TrimSuffix(lineAlt, "#0")+"#1"
+					rest = restAlt
+				}
+				switch n := next(); n {
+				case "buf-empty=T":
+					if n2 := next(); n2 != "log("+line+")" {
+						ok, why = false, "with nothing buffered the line "+line+" is logged directly; found "+n2
+					}
+				case "buf-empty=F":
+					n2 := next()
+					for strings.HasPrefix(peek(), "buf-empty=") {
+						next() // re-testing the buffer after the append changes nothing: a completed line is logged even if empty
+					}
+					n3, n4 := next(), next()
+					if n2 != "buf+="+line || n3 != "log(buf)" || n4 != "buf-reset" {
+						ok, why = false, "with a partial line buffered: append "+line+", log the buffer, reset it; found "+n2+" ; "+n3+" ; "+n4
+					}
+				default:
+					ok, why = false, "after finding a newline the buffer's emptiness decides; found "+n
+				}
+				C = rest
+			default:
+				ok, why = false, "expected the newline search on "+C+", found "+t
 			}
 		}
+	done:
+		if ok {
+			if n := next(); n != wantRet || peek() != "<end>" {
+				badRet = append(badRet, sq)
+			}
+		} else {
+			badLine = append(badLine, why+" ("+sq+")")
+		}
 	}
-	return nil
+	lim := func(l []string) []string {
+		if len(l) > 3 {
+			return append(l[:3:3], "… "+itoa(len(l)-3)+" more")
+		}
+		return l
+	}
+	c.Check(len(badLine) == 0 && nLines > 0, "R17.1", wr.String(), "line-protocol", wr.Pos(), "over %d paths (helpers inline, up to 3 pieces per chunk; %d longer paths cut): each piece is searched for its first newline; without one the whole piece is appended to the buffer and the loop ends; with one, the part before it is the line (logged directly when nothing is buffered, else appended, the buffer logged and reset) and the next piece is exactly the part after it: %v", len(seqs), cut, lim(badLine))
+	c.Check(len(badRet) == 0, "R17.1", wr.String(), "consumes-all", wr.Pos(), "every path returns (len(%s), nil) with %s the original parameter: %v", P, P, lim(badRet))
+	c.Check(len(badGate) == 0, "R17.2", wr.String(), "level-gate", wr.Pos(), "Write first asks the logger's core whether the writer's level is enabled (afresh on every call) and, if not, returns (len(%s), nil) without buffering or logging: %v", P, lim(badGate))
+	c.Check(len(badLine) == 0, "R17.4", wr.String(), "fast-path-only-when-empty", wr.Pos(), "same exploration: the direct log is taken only on the buffer-empty branch; otherwise the fragment joins the buffer before the buffered line is logged, and the buffer is reset afterwards")
+	c.Check(len(badKeep) == 0 && len(badLine) == 0, "R17.5", wr.String(), "no-retained-caller-slice", wr.Pos(), "same exploration: the buffer only ever grows by copying (bytes.Buffer.Write / append(buf, piece...)); the caller's slice is never stored: %v", lim(badKeep))
+
+	// ---------------- Sync / Close ----------------
+	sseqs, strunc, _ := explore(sy)
+	var badSync []string
+	for _, sq := range sseqs {
+		switch sq {
+		case "buf-empty=F ; log(buf) ; buf-reset ; ret(nil)", "buf-empty=T ; buf-reset ; ret(nil)", "buf-empty=T ; ret(nil)":
+		default:
+			badSync = append(badSync, sq)
+		}
+	}
+	c.Check(!strunc && len(sseqs) >= 2 && len(badSync) == 0, "R17.3", sy.String(), "flushes-partial-line-only-if-non-empty", sy.Pos(), "Sync logs the pending partial line exactly when the buffer is non-empty (no empty message for a trailing newline), resets the buffer and returns nil: %v", badSync)
+	cseqs, ctrunc, _ := explore(cl)
+	okClose := !ctrunc && len(cseqs) > 0
+	for _, sq := range cseqs {
+		if sq != "sync ; ret(sync)" && sq != "sync ; ret(nil)" && !strings.HasPrefix(sq, "sync ; ret(") {
+			okClose = false
+		}
+	}
+	c.Check(okClose, "R17.3", cl.String(), "close-is-sync", cl.Pos(), "Close flushes through Sync on every path: %v", cseqs)
 }
 
-// constByteSlice: v is a []byte whose contents are known: a conversion of a
-// constant string, a literal of constants, or a package variable initialised
-// with one of these and never assigned or written through elsewhere.
 func (c *Ctx) constByteSlice(v ssa.Value) ([]byte, bool) {
 	v = Strip(v)
 	switch x := v.(type) {
